@@ -1,6 +1,6 @@
 (* C18 — empty, zero-capacity and default-constructed vectors are fully usable. *)
 From Coq Require Import ZArith List Bool.
-From Cntgs Require Import Base Layout Mem Vector World Spec Rep StableThm Refine.
+From Cntgs Require Import Base Layout Mem Vector World Spec Rep StableThm Refine NtRefine LayoutHist.
 Import ListNotations.
 Local Open Scope Z_scope.
 
@@ -41,3 +41,29 @@ Theorem C18_default_constructed : forall L,
   destroy L (vec_default L) = [] /\ vsize L (fst (clear L (vec_default L))) = 0.
 Proof. exact default_vector_empty. Qed.
 Print Assumptions C18_default_constructed.
+
+(* ---------- every list, every way of becoming empty ---------- *)
+Theorem C18_clear_gives_empty_every_list : forall L, wf_plist L = true ->
+  forall v l, Rep L v l -> Rep L (fst (clear L v)) [].
+Proof. exact clear_rep_nt. Qed.
+Print Assumptions C18_clear_gives_empty_every_list.
+
+Theorem C18_empty_state : forall L v, wf_plist L = true -> Rep L v [] -> vsize L v = 0 /\ dend L v = 0.
+Proof. exact rep_empty. Qed.
+Print Assumptions C18_empty_state.
+
+(* a vector that is empty after ANY valid history from construction (never filled; emptied by
+   pop_back / erase / erase(first,last) / clear, in any mixture with emplace_back and reserve;
+   capacity 0 included): size() = 0, data_end() = data_begin(), and it represents the empty
+   list - so whatever valid history follows is covered by the refinement theorem (C01) again:
+   "after reserve / emplace_back it behaves like any other vector" *)
+Theorem C18_emptied_after_every_history : forall L cap budget fixed aid junk bid tbid h,
+  wf_plist L = true -> 0 <= cap -> Forall (fun c => 0 <= c) fixed ->
+  let v0 := fst (mkvec L cap budget fixed aid junk bid tbid) in
+  let s0 := {| s_cap := cap; s_elems := [] |} in
+  shist_valid L (fixed_counts L fixed) s0 h -> nt_hist_ok L s0 h ->
+  s_elems (srun s0 h) = [] ->
+  let v := vrun L junk v0 h in
+  Rep L v [] /\ vsize L v = 0 /\ dend L v = 0.
+Proof. exact emptied_after_every_history. Qed.
+Print Assumptions C18_emptied_after_every_history.
